@@ -79,7 +79,7 @@ func init() {
 			}
 			s.A = a
 			if (s.Op == "par_push" || s.Op == "device_authz") && t.Chance(14) {
-				s.A = "as_other" // these two endpoints take the client from the body's client_id: it must be the authenticated one
+				s.A = t.Pick([]string{"as_other", "as_other_query"}) // these two endpoints take the client from the body's client_id: it must be the authenticated one
 			}
 			steps = append(steps, s)
 			if t.Chance(6) {
